@@ -105,6 +105,16 @@ def build_txns(data_atoms, names, rnd, variant):
         dict(date=d(2025, 2, 2), raw_description='401K', description='Fidelity', amount=-250.0 if variant % 3 == 0 else 250.0, merchant='Fidelity',
              category='Invest', subcategory='', source='Card', location=None, tags=['investment']),
     ]
+    if variant % 3 != 1:
+        # what no rule matched (Unknown / Unknown) next to categories a rule may legitimately assign with the same words
+        txns.append(dict(date=d(2025, 2, 12), raw_description='MYSTERY ' + desc, description='Mystery', amount=sg * 9.5, merchant='Mystery',
+                         category='Unknown', subcategory='Unknown', source='Card', location=None, tags=[]))
+        txns.append(dict(date=d(2025, 2, 13), raw_description='ATM', description='Cashbox', amount=sg * 60.0, merchant='Cashbox',
+                         category='Unknown', subcategory='Cash', source='Card', location=None, tags=[]))
+        txns.append(dict(date=d(2025, 2, 14), raw_description='MISC', description='Misc Co', amount=sg * 3.25, merchant='Misc Co',
+                         category='Uncategorized', subcategory='Unknown', source='Card', location=None, tags=[]))
+        txns.append(dict(date=d(2025, 2, 15), raw_description='OTHER', description='Other Co', amount=sg * 1.75, merchant='Other Co',
+                         category='', subcategory='', source='Card', location=None, tags=[]))
     if len(names) > 2:
         n3 = ''.join(NAME_TEXT[a] for a in names[2])
         txns.append(dict(date=d(2025, 2, 9), raw_description='third ' + desc, description=n3, amount=sg * 7.75, merchant=n3, category='Food',
